@@ -963,8 +963,8 @@ func init() {
 
 	mc.Register(&mc.Property{
 		ID: "C16", Level: "model_checking",
-		Rule:        "explicit-state BFS over histories of two-slot store worlds (all five kinds) and sketch worlds (both variants); every state of depth < bound receives Reweight(w) for w in {2^-10, 1/2, 1, 2, 3}; differential transition oracle: the content observed after Reweight must be exactly the content observed before with every weight multiplied by w (all observers incl. rank lookups for stores; bins, zero weight and count for sketches; exact sum scaled, exact min/max unchanged); Reweight is also an ordinary operation so its futures are explored; distinct_nontrivial counts distinct contents",
-		Assumptions: []string{"dyadic weights so scaled weights are exact (w=3 included: small numerators)"},
+		Rule:        "explicit-state BFS over histories of two-slot store worlds (all five kinds) and sketch worlds (both variants); every state of depth < bound receives Reweight(w) for w in {2^-10, 1/2, 1, 2, 3}; differential transition oracle: the content observed after Reweight must be exactly the content observed before with every weight multiplied by w (all observers incl. rank lookups for stores; bins, zero weight and count for sketches; exact sum scaled, exact min/max unchanged); Reweight is also an ordinary operation so its futures are explored; plus, literally, every sequence of <= 3 (4) additions with NON-dyadic weights on each store kind and through a sketch, followed by Reweight(w), compared observer for observer (totals to the last bit) with a twin object that received the weights multiplied by the dyadic w; distinct_nontrivial counts distinct contents",
+		Assumptions: []string{"dyadic weights so scaled weights are exact (w=3 included: small numerators)", "twin shards: dyadic factors {1/2, 2, 4, 2^-10} (scaling commutes with rounding), weights {0.1, 0.3, 0.7, 3} that never become 1; the sparse store's twin is skipped when map order is not controlled (its total is summed in map order)"},
 		Shards: func(tier string) []mc.Shard {
 			under := []Kind{{K: 'D'}, {K: 'S'}, {K: 'P'}, {K: 'L', N: 3}, {K: 'H', N: 3}}
 			stSpecs := storeSpecs("C16", under, tier, 4, 5, func(sp *StoreScenarioSpec, o *alphabetOpts) {
@@ -1002,6 +1002,7 @@ func init() {
 					}
 				}
 			}
+			sh = append(sh, c16TwinShards(tier)...)
 			return append(sh, shardsOfSketchSpecs(specs)...)
 		},
 		ShardBudget: budget(240*time.Second, 12*time.Minute),
